@@ -495,6 +495,18 @@ def gen_trace(rng, tier='quick', crit_names=(), arm=None):
     ctx['unops'] = rng.sample(uns, rng.randint(2, 4))
     ctx['weights'] = {'bin': 50, 'un': 14, 'meth': 10 if not big else 2, 'reg': rng.choice([0, 15, 30]),
                       'register': 2, 'symcall': rng.choice([0, 5, 10])}
+    # mirror arm: the same operations, operand for operand, on two algebras of equal dimension and
+    # different signature, drawn from the whole operator alphabet (cross-algebra leaks)
+    mirror_with = None
+    if len(algebras) >= 2 and rng.random() < 0.4:
+        same = [j for j in range(1, len(algebras)) if dim_of(algebras[j]) == dim_of(algebras[0])
+                and not algebras[j].get('graded') and not algebras[0].get('graded')
+                and not algebras[j].get('name') and not algebras[0].get('name')
+                and start_index_of(algebras[j]) == start_index_of(algebras[0])]
+        if same:
+            mirror_with = rng.choice(same)
+            ctx['binops'], ctx['unops'] = bins, uns
+            ctx['weights'] = {'bin': 40, 'un': 40, 'meth': 8 if not big else 2, 'reg': 0, 'register': 0, 'symcall': 4}
 
     registered = []
     if ctx['weights']['reg']:
@@ -541,8 +553,18 @@ def gen_trace(rng, tier='quick', crit_names=(), arm=None):
             prog.append(op)
         callers.append(prog)
 
+    if mirror_with is not None:
+        import copy as _copy
+        for c, prog in enumerate(callers):
+            first = [op for op in prog if op['alg'] == 0 and not any(a.get('k') in ('sh', 'other', 'prev') for a in op.get('args', []))]
+            mirrored = []
+            for op in first:
+                m = _copy.deepcopy(op)
+                m['alg'] = mirror_with
+                mirrored.append(m)
+            callers[c] = (first + mirrored) if rng.random() < 0.5 else (mirrored + first)
     twins = False
-    if n_callers >= 2 and rng.random() < 0.3 and not any(a.get('graded') for a in algebras):
+    if mirror_with is None and n_callers >= 2 and rng.random() < 0.3 and not any(a.get('graded') for a in algebras):
         twins = True
         callers[1] = twin_of(rng, callers[0], algebras, pools)
     faults = []
